@@ -266,6 +266,9 @@ impl Scenario for C15Read {
         let mut s = SimStream::new(cx, data.clone());
         s.eintr_den = *cx.pick(&[0u64, 8, 3, 32]);
         s.log_calls = true;
+        // half of the streams scatter one read over several buffers when asked to (files, sockets,
+        // slices do); the other half behave like a serial port (first buffer only)
+        s.vectored = cx.chance(1, 2);
         let calls = read_pass(cx, &mut s, false)?;
         if s.max_offered > 1 {
             cx.probe("run_where_reader_asked_for_more_than_1_byte");
